@@ -330,7 +330,14 @@ impl StoreRun {
         let name = s(op, "op");
         let sid = op["s"].as_u64().unwrap_or(0);
         let kind_opt = io(op, "k").map(kind_of);
-        let filter = op.get("f").filter(|f| !f.is_null()).and_then(filter_from_json);
+        let mut filter = op.get("f").filter(|f| !f.is_null()).and_then(filter_from_json);
+        // "fj": the filter takes the JSON route: serialised with TagFilter::to_string and parsed back with from_str
+        if b(op, "fj") {
+            if let Some(f) = filter.take() {
+                let text = match f.to_string() { Ok(t) => t, Err(e) => return jerr(&e) };
+                filter = match <askar_storage::entry::TagFilter as std::str::FromStr>::from_str(&text) { Ok(f2) => Some(f2), Err(e) => return jerr(&e) };
+            }
+        }
         match name.as_str() {
             "session" => {
                 match self.backend.session(so(op, "profile"), b(op, "txn")) {
